@@ -9,6 +9,7 @@ import (
 
 	"grol.io/grol/ast"
 	"grol.io/grol/object"
+	"grol.io/grol/token"
 )
 
 // ---- AST dump: the S-expression syntax read by lean/Grol/Eval/Sexp.lean ----
@@ -54,6 +55,13 @@ func dumpNode(sb *strings.Builder, n ast.Node) {
 	case *ast.Boolean:
 		sb.WriteString("(bool " + b2s(v.Val) + ")")
 	case *ast.PrefixExpression:
+		// -9223372036854775808: the evaluator keeps it an integer (eval.isMinInt64Literal, C14 fix)
+		if fl, ok := v.Right.(*ast.FloatLiteral); ok && v.Type() == token.MINUS && fl.Type() == token.INT {
+			if i, err := strconv.ParseInt("-"+fl.Literal(), 0, 64); err == nil && i == math.MinInt64 {
+				sb.WriteString("(int -9223372036854775808)")
+				return
+			}
+		}
 		sb.WriteString("(pre " + v.Type().String() + " ")
 		dumpNode(sb, v.Right)
 		sb.WriteByte(')')
